@@ -228,3 +228,6 @@ def run(R, tier):
     # ---- R10.9 an error-queue item is two data elements: code `,` quoted text - on every arm of its writer ---------------------
     from . import c09
     c09.check_error_writer(R, P, u, E.engine(), E, rule="R10.9")
+    # ---- R10.10 whole messages: the response buffer, end to end ---------------------------------------------------------------------
+    from . import msgtable as MT
+    MT.check(R, "R10.10", "framing", tier, "Node::run on whole successful messages with the growable formatter analysed in place: the buffer holds the queries' units in order, `;` between units, header / space / data joined by `,`, one NL at the end iff something was written; commands contribute nothing", 150)
